@@ -19,10 +19,23 @@ ASSUMPTIONS = ['the reference look-ahead reads "forced-break document starts lat
 BUDGET = {'quick': {'random': 9000, 'shards': 16}, 'thorough': {'random': 400000, 'shards': 16}}
 
 
+STRINGS = ['plain words here', "rock'n'roll all night", "it's", "''''", 'say "hi" twice "ok"', '\'"\'"\'', 'back\\slash\\', 'tab\there',
+           'line\nbreak', 'é' * 12, '', 'x' * 40, "a'b'c'd'e'f", 'q"q"q"q']
+
+
 def enumerate_cases(tier):
     for c in c05.enumerate_cases(tier):
         c['kind'] = 'doc'
         yield c
+    # one-line values around string literals of every quoting flavour, str and bytes, in the usual positions
+    for s in STRINGS:
+        for leaf in (['str', s], ['bytes', s.encode('utf-8').hex()]):
+            shapes = [['list', [leaf]], ['list', [leaf, ['int', 1]]], ['tuple', [leaf]], ['set', [leaf]], ['list', [['list', [['list', [leaf]]]]]],
+                      ['dict', [[leaf, ['int', 1]]]], ['dict', [[['int', 1], leaf]]], ['call', 'box', [leaf], []], ['call', 'box', [['int', 1]], [['kw', leaf]]],
+                      ['fset', [leaf]], leaf]
+            for v in shapes:
+                for indent in (4, 1):
+                    yield {'kind': 'value', 'v': v, 'indent': indent}
 
 
 def fixed_cases():
